@@ -769,7 +769,11 @@ class Watcher(object):
             # callers reap the process as soon as we return
             while process.stopping:
                 yield tornado_sleep(0.1)
-            raise gen.Return(False)
+            if not process.kill_failed:
+                raise gen.Return(False)
+            # that attempt broke off (a signal could not be sent): callers
+            # would wait for a live process, make an attempt of our own
+            process.kill_failed = False
         try:
             logger.debug("%s: kill process %s", self.name, process.pid)
             if self.stop_children:
@@ -800,6 +804,9 @@ class Watcher(object):
             if self.stream_redirector:
                 self.stream_redirector.flush_redirections(process)
                 self.stream_redirector.remove_redirections(process)
+        except Exception:
+            process.kill_failed = True
+            raise
         finally:
             # whatever happened, nobody may wait for this kill any longer
             process.stopping = False
